@@ -259,6 +259,9 @@ class Check(object):
             mu = Usim(v["plan"].get("flavour", flavour))
 
             def still_fails(p, _mu=mu, _rule=rule):
+                # a property module may restrict the reduction to the space of plans its generator can produce
+                if hasattr(self.mod, "plan_ok") and not self.mod.plan_ok(p):
+                    return False
                 if p.get("flavour", flavour) != _mu.flavour:
                     return _rule in [r for (r, d) in self.evaluate_fresh(p, flavour)]
                 for (r, d) in self.mod.evaluate(p, _mu):
